@@ -127,7 +127,13 @@ impl BuildJob<'_> {
         let newstamp = sf.read_stamp(ptx.state().env())?;
         if sf.is_generated()
             && !newstamp.is_missing()
-            && (sf.is_override || Stamp::detect_override(sf.stamp.as_ref().unwrap(), &newstamp))
+            && (sf.is_override
+                || sf
+                    .stamp
+                    .as_ref()
+                    // No recorded stamp (redo-stamp marked a first build generated
+                    // and the build never finished): nothing to compare with.
+                    .map_or(false, |s| Stamp::detect_override(s, &newstamp)))
         {
             let nice_t = nice(ptx.state().env(), &t).map_err(RedoError::opaque_error)?;
             state::warn_override(&nice_t);
